@@ -89,6 +89,22 @@ T = {
     "C06a": ("C06", "the provenance round pre-fills a `queued` set with the round's delta and uses it to gate the re-queuing of improved facts",
              "a fact that gets a second derivation one round after its first while a consumer rule was evaluated earlier in that round",
              "C06-R3 / C12-R3 (an improved fact is queued without a further condition)", None),
+    "C01c": ("C01", "execute_select truncates the id-level solution rows to LIMIT before decoding when there is no ORDER BY, DISTINCT or GROUP BY - "
+                    "but an aggregate without GROUP BY (implicit group) is not ruled out",
+             "a top-level SELECT with SUM/AVG/MIN/MAX, no GROUP BY, and LIMIT n smaller than the number of solutions",
+             "C01-R15 (the solution sequence is cut only by the finalizers, or under a guard that consults every modifier)", "missed by C01-R1..R14; C01-R15 added"),
+    "C02c": ("C02", "the three star-query branches of find_best_plan_recursive are folded into a helper that memoises the star plan, already wrapped "
+                    "in the FILTER, under the key of the bare join group",
+             "the same star group twice in one query (UNION branches / subquery), the filtered occurrence planned first",
+             "C02-R10 (the plan memo stores only plans computed from the keyed node)", "missed by C02-R1..R9; C02-R10 added"),
+    "C03c": ("C03", "allocate_blank_node treats a generated label as free unless the node still occurs in the DEFAULT graph (DatasetIndex::query)",
+             "a stored blank node with an allocator-shaped label that occurs only in named graphs", "C03-R4 (the generated label is checked against the dictionary)", None),
+    "C04c": ("C04", "query_named_graphs takes its candidate graphs from the caller's visible set (filtered by graph_exists) instead of the catalog",
+             "a visible set that contains GraphId::Default and a not fully bound pattern", "C04-R7 (the across-named-graphs reader never reads the default graph)",
+             "missed by C04-R1..R6; C04-R7 added"),
+    "C05c": ("C05", "the both-bound bucket of the rule join's hash table keeps one partial binding per (subject, object) key",
+             "a premise whose subject and object are already bound, with two partial bindings that agree on them and differ in another variable",
+             "C05-R9 (the rule join keeps every partial binding)", "missed by C05-R1..R8; C05-R9 added"),
     "C16b": ("C16", "sparql_aggregate returns the slice matched by the case-insensitive keyword helper instead of the canonical literal",
              "an aggregate keyword not written in upper case", "C16-R4 (keyword text never reaches the tree)",
              "missed by C16-R1..R3 (C01-R1 fired only through a floor, for the wrong reason); C16-R4 added, C01-R1 reads constant tables"),
